@@ -35,9 +35,13 @@ Reason(ev) ==
          THEN "kf:stl-dollar-as-currency-sign"
     ELSE IF ~SameWritten(RefRead(NormD(ev.d), FALSE), WriteTruth(ev)) THEN "written-file-denotes-something-else(independent-decoder)"
     ELSE "written-file-denotes-something-else(library-reader)"
+\* implementation layer: the model of the block loop predicts what the hook saw after every TTI block
+ImplPredicts(ev) == ev.dir = "read" /\ ev.res = "ok" => ev.hooks = ImplHooks(ev.d)
 Init == l = 1
 Step == /\ l <= Len(Trace)
-        /\ LET r == Reason(Trace[l]) IN IF r = "ok" THEN TRUE ELSE PrintT(<<"V", l, Trace[l].n, "C05", r>>)
+        /\ LET r == Reason(Trace[l]) IN
+           IF r = "ok" THEN (IF ImplPredicts(Trace[l]) THEN TRUE ELSE PrintT(<<"V", l, Trace[l].n, "DRIFT", "block-loop-model-does-not-predict-the-hook-events">>))
+           ELSE PrintT(<<"V", l, Trace[l].n, "C05", r>>)
         /\ l' = l + 1
 Spec == Init /\ [][Step]_l
 Accepted == TLCGet("stats").diameter - 1 = Len(Trace)
